@@ -300,6 +300,34 @@ def nan_discipline(ctx, obs, q, rule='NAN'):
         obs.check(ok, rule, q, 'a resample marked NaN also marks its noise ceilings NaN',
                   'the arm that sets evaluations to NaN does not set the noise-ceiling entries of the resample to NaN',
                   '', where(prog, f, s))
+    # SMALL: what decides "too small to evaluate" is the number of DISTINCT conditions drawn (a resample of n conditions always has
+    # n entries; fewer than three distinct ones leave no off-diagonal structure to evaluate), with threshold three
+    inl0 = Inliner(r, None, tuple(f.params))
+    for s in nan_stores:
+        gs = [g for g in ast.walk(f.node) if isinstance(g, ast.If) and any(x is s for t in g.orelse for x in ast.walk(t))]
+        if not gs:
+            continue
+        g = gs[-1]
+        cmps = [c for c in ast.walk(g.test) if isinstance(c, ast.Compare) and len(c.ops) == 1
+                and isinstance(c.ops[0], (ast.GtE, ast.Gt)) and isinstance(c.left, (ast.Call, ast.Attribute, ast.Name))]
+        pat = [c for c in cmps if 'pattern' in norm(c).lower() or 'cond' in norm(c).lower()]
+        for c in pat:
+            left = inl0.inline(c.left)
+            distinct = isinstance(left, ast.Call) and _leaf(left.func) == 'len' and left.args and isinstance(left.args[0], ast.Call) \
+                and _leaf(left.args[0].func) == 'unique'
+            con = 'a resample is evaluated only if it has at least three DISTINCT conditions'
+            if not distinct:
+                obs.bad('SMALL', q, con, f'`{norm(c)}` counts `{norm(c.left)}`, which includes repeated draws: resamples with fewer than three '
+                        f'distinct conditions are evaluated (and enter the variances) instead of being marked NaN', where(prog, f, c))
+                continue
+            rhs = c.comparators[0]
+            k = rhs.value if isinstance(rhs, ast.Constant) else None
+            if k is not None:
+                n0 = k if isinstance(c.ops[0], ast.GtE) else k + 1
+                obs.check(n0 >= 3, 'SMALL', q, con, f'`{norm(c)}` accepts resamples with {n0} distinct conditions', '', where(prog, f, c))
+            else:
+                has3 = any(isinstance(x, ast.Constant) and x.value == 3 for x in ast.walk(rhs)) and isinstance(c.ops[0], ast.GtE)
+                obs.soft(has3, 'SMALL', q, con, f'threshold `{norm(rhs)}` not recognised', '', where(prog, f, c))
     # every covariance is computed from mask-selected arrays
     stop = tuple({ev} | ({nc} if nc else set()) | masks)
     inl = Inliner(r, None, (), stop=stop)
@@ -544,3 +572,7 @@ def _is_set_expr(e):
             and _is_set_expr(e.func.value):
         return True
     return False
+
+
+def _leaf(fn):
+    return fn.attr if isinstance(fn, ast.Attribute) else (fn.id if isinstance(fn, ast.Name) else '')
